@@ -97,14 +97,13 @@ deriving DecidableEq, Repr, Inhabited
 def scanArch (arch : List (Nat × Nat)) (i : Nat) : Option Nat :=
   (arch.reverse.find? (fun p => p.1 ≤ i)).map (·.2)
 
+/-- `TermSegments::get`; once more segments were archived than the arrays hold (`seg_count > 1024`, the later ones
+    were dropped) the cold path answers `None` and `entry_term` falls back to the SkipMap -/
 def Segs.get (s : Segs) (i : Nat) : Option Nat :=
   if s.lastTerm = 0 then none
   else if s.lastStart ≤ i then some s.lastTerm
+  else if maxSegs < s.count then none
   else scanArch s.arch i
-
-/-- The cold path indexes `seg_starts[count-1]`; with more than 1024 archived segments that is out of bounds. -/
-def Segs.getPanics (s : Segs) (i : Nat) : Bool :=
-  s.lastTerm != 0 && i < s.lastStart && maxSegs < s.count
 
 def Segs.push (s : Segs) (e : Entry) : Segs :=
   if e.term = s.lastTerm then
@@ -150,9 +149,6 @@ def entryTerm (b : Buf) (i : Nat) : Option Nat :=
   else match b.segs.get i with
     | some t => some t
     | none => (lookup b.mem i).map (·.term)
-
-def entryTermPanics (b : Buf) (i : Nat) : Bool :=
-  !(b.maxIdx = 0 ∨ i < b.minIdx ∨ b.maxIdx < i) && b.segs.getPanics i
 
 def firstIdxForTerm (b : Buf) (t : Nat) : Option Nat := amGet b.tfirst t
 def lastIdxForTerm (b : Buf) (t : Nat) : Option Nat := amGet b.tlast t
@@ -260,14 +256,6 @@ def divergePos (b : Buf) : List Entry → Option Nat
     if b.maxIdx < e.index ∨ b.entryTerm e.index ≠ some e.term then some 0
     else (divergePos b es).map (· + 1)
 
-def divergePanics (b : Buf) : List Entry → Bool
-  | [] => false
-  | e :: es =>
-    if b.maxIdx < e.index then false
-    else if b.entryTermPanics e.index then true
-    else if b.entryTerm e.index ≠ some e.term then false
-    else divergePanics b es
-
 /-- Step 2 of the source: may the whole overlap be skipped? (two loads from `TermSegments`) -/
 def overlapSafe (b : Buf) (overlap : List Entry) : Bool :=
   match overlap.head? with
@@ -298,15 +286,6 @@ def fcaDecide (b : Buf) (prevI prevT : Nat) (es : List Entry) : FcaPlan × Strin
   if prevI = 0 ∧ prevT = 0 then (.reset, "fca-reset")
   else if b.entryTerm prevI ≠ some prevT then (.mismatch, "fca-prev-mismatch")
   else fcaMatched b es
-
-def fcaPanics (b : Buf) (prevI prevT : Nat) (es : List Entry) : Bool :=
-  if prevI = 0 ∧ prevT = 0 then false
-  else if b.entryTermPanics prevI then true
-  else if b.entryTerm prevI ≠ some prevT then false
-  else match fcaDecide b prevI prevT es with
-    | (_, "fca-fast-noop") => false
-    | (_, "fca-fast-append") => false
-    | _ => divergePanics b es
 
 /-- memory part of the conflict branch, in source order -/
 def Buf.replaceMem (b : Buf) (d : Nat) (tail : List Entry) : Buf :=
@@ -434,6 +413,9 @@ def persistPending (s : Sys) : Sys :=
 /-- `handle_non_write_cmd` (the reference store never fails) -/
 def handleCmd (s : Sys) : IOCmd → Sys
   | .replace d es =>
+    -- both watermarks are lowered below the truncation point first (fix 95c6d63), then the store is rewritten
+    let below := d - 1
+    let s := { s with pendingMax := min s.pendingMax below, buf := { s.buf with durable := min s.buf.durable below } }
     let maxI := match es.getLast? with | some e => e.index | none => 0
     { s.stReplace d es with pendingMax := if maxI > 0 then max s.pendingMax maxI else s.pendingMax }
   | .purge ci ct => s.stPurge ci ct
@@ -635,10 +617,6 @@ def execOp (s : Sys) : Op → Sys × Res × String
     (s1.closeMain.ioRun sch.prio, .ok, if s.alive then "close" else "close-dead")
   | .crash power => (s.reopen power, .ok, if power then "crash-power" else "crash-process")
 
-def opPanics (s : Sys) : Op → Bool
-  | .fca prevI prevT es _ => fcaPanics s.buf prevI prevT es
-  | _ => false
-
 /-! ## Plain-log specification (L4): a list of entries above an anchor, textbook rules -/
 
 structure Plain where
@@ -741,16 +719,6 @@ def Plain.exec (p : Plain) : Op → Plain × Res
   | _ => (p, .ok)
 
 /-! ## Runs -/
-
-/-- number of entries an operation hands to the log (each can open at most one `TermSegments` slot) -/
-def opEntries : Op → Nat
-  | .append es => es.length
-  | .fca _ _ es _ => es.length
-  | _ => 0
-
-def budget : List Op → Nat
-  | [] => 0
-  | op :: ops => opEntries op + budget ops
 
 /-- every operation is well-formed in the specification state it meets -/
 def wfRun : Plain → List Op → Bool
